@@ -19,6 +19,10 @@ var colorModes = [7]Mode{
 	ModeInvisible, // SGR 8
 }
 
+// maxCSIParam is the largest value a CSI parameter can take; longer digit
+// strings saturate here instead of overflowing int.
+const maxCSIParam = 1<<31 - 1
+
 func (t *terminal) ptyReadLoop() {
 	reader := bufio.NewReader(t.backend)
 	gr := NewGraphemeReaderWithMode(reader, t.textReadMode)
@@ -295,6 +299,9 @@ func (t *terminal) handleCmdCSI(r escapeReader) bool {
 			sawSeparator = true
 		} else {
 			param = param*10 + int(b-'0')
+			if param > maxCSIParam {
+				param = maxCSIParam
+			}
 			paramSet = true
 			sawSeparator = false
 		}
